@@ -6,8 +6,7 @@ impl Set {
     /// assumed contract (proved in unit value_set)
     #[verifier::external_body] pub fn is_empty(&self) -> (r: bool) ensures r == (self.spec_len() == 0) { unimplemented!() }
 }
-/// structural equality of values ignoring source locations (`impl PartialEq for Value`, educe-derived; trusted)
-pub uninterp spec fn val_eq(a: Value, b: Value) -> bool;
+/// `impl PartialEq for Value` (educe-derived, ignores source locations; trusted): see val_eq / kind_eq
 #[verifier::external_body] pub fn vx_value_eq(a: &Value, b: &Value) -> (r: bool) ensures r == val_eq(*a, *b) { unimplemented!() }
 impl RepresentableExtensionValue {
     pub uninterp spec fn spec_overloads(&self) -> bool;
